@@ -36,9 +36,10 @@ MANIFEST = {
 }
 BUDGET = {'quick': 80, 'thorough': 1500}
 MISMATCH_BUDGET = 0.0
-RULE = ('input lists of 1-4 gradients on channel x drawn from 9 streams (equal-timing trapezoids, unequal '
+RULE = ('input lists of 1-4 gradients on channel x drawn from 9 streams x 2 call modes (equal-timing trapezoids, unequal '
         'trapezoids, trapezoid+extended, extended only, mixes with arbitrary gradients, cancelling pairs, '
-        'limit-override cases, near-limit sums, junction = pieces made by split_gradient_at / split_gradient / by hand '
+        'limit-override cases, near-limit sums, library-default-system calls (one case in five: set_as_default + omitted '
+        '`system` argument, previous default restored), junction = pieces made by split_gradient_at / split_gradient / by hand '
         'from trapezoids and extended trapezoids of both signs, meeting at a shared corner at a non-zero value); times are integer multiples of the raster of a random system, '
         'amplitudes integers; a gradient starts/ends away from zero only at time 0 / at the common end (the '
         'block rule). Oracle per case: exact rendering of inputs and result compared at every corner time, '
@@ -263,7 +264,7 @@ def gen_case(rng, tier, i):
                                                      for _ in range(n - 1)]
     if stream == 'junction':
         grads = gen_junction(rng, S, amax, kmax)
-        return {'stream': stream, 'sys': S, 'ov': {'mg': 0, 'ms': 0}, 'grads': grads}
+        return {'stream': stream, 'sys': S, 'ov': {'mg': 0, 'ms': 0}, 'grads': grads, 'dflt': rng.random() < 0.2}
     # shared corner times: sometimes align delays
     if len(grads) > 1 and rng.random() < 0.3:
         d = grads[0]['delay']
@@ -306,7 +307,7 @@ def gen_case(rng, tier, i):
             ov['mg'] = int(mg * 0.5)
     if rng.random() < 0.05:
         ov = {'mg': rng.choice([-1, 0]), 'ms': rng.choice([-5, 0])}
-    return {'stream': stream, 'sys': S, 'ov': ov, 'grads': grads}
+    return {'stream': stream, 'sys': S, 'ov': ov, 'grads': grads, 'dflt': rng.random() < 0.2}
 
 
 def corpus():
@@ -336,6 +337,26 @@ def corpus():
          'grads': [{'k': 'arb', 'delay': 5, 'wf': [-3728, -6430, 2653], 'first': 0, 'last': 0},
                    {'k': 'arb', 'delay': 0, 'wf': [2621, 4544, -4180, -6977, -4147, -3904, 4092, 757],
                     'first': 0, 'last': 1851}]},
+        # library default system (set_as_default + omitted `system`): within a strong default but above the
+        # import-time default limits (all three paths), above a weak default but within the import-time one, and a
+        # 20 us raster on the sampled path
+        {'stream': 'corpus', 'dflt': True, 'sys': {'mg': 3400000, 'ms': 8000000000, 'r': 10}, 'ov': {'mg': 0, 'ms': 0},
+         'grads': [dict(t, amp=1200000, rise=50, fall=50, flat=100), dict(t, amp=1200000, rise=50, fall=50, flat=100)]},
+        {'stream': 'corpus', 'dflt': True, 'sys': {'mg': 3400000, 'ms': 8000000000, 'r': 10}, 'ov': {'mg': 0, 'ms': 0},
+         'grads': [dict(t, amp=1200000, rise=50, fall=50, flat=100),
+                   dict(t, amp=1200000, rise=50, fall=50, flat=60, delay=20)]},
+        {'stream': 'corpus', 'dflt': True, 'sys': {'mg': 400000, 'ms': 5000000000, 'r': 10}, 'ov': {'mg': 0, 'ms': 0},
+         'grads': [dict(t, amp=300000), dict(t, amp=300000, delay=5)]},
+        {'stream': 'corpus', 'dflt': True, 'sys': {'mg': 400000, 'ms': 5000000000, 'r': 10}, 'ov': {'mg': 0, 'ms': 0},
+         'grads': [dict(t, amp=300000), dict(t, amp=300000)]},
+        {'stream': 'corpus', 'dflt': True, 'sys': {'mg': 3400000, 'ms': 8000000000, 'r': 20}, 'ov': {'mg': 0, 'ms': 0},
+         'grads': [dict(t, amp=1200000, rise=30, fall=30, flat=20, delay=2),
+                   {'k': 'arb', 'delay': 0, 'wf': [100000, 300000, 500000, 700000, 800000, 800000, 600000, 300000, 100000],
+                    'first': 0, 'last': 0}]},
+        {'stream': 'corpus', 'dflt': True, 'sys': {'mg': 400000, 'ms': 5000000000, 'r': 20}, 'ov': {'mg': 0, 'ms': 0},
+         'grads': [dict(t, amp=300000, delay=2),
+                   {'k': 'arb', 'delay': 0, 'wf': [20000, 60000, 100000, 140000, 160000, 160000, 120000, 60000, 20000],
+                    'first': 0, 'last': 0}]},
     ]
     return cs
 
@@ -391,10 +412,26 @@ def run_impl(case):
         kw['max_slew'] = case['ov']['ms']
     err = None
     res = None
-    try:
-        res = pp.add_gradients(objs, system=system, **kw)
-    except ValueError as e:
-        err = str(e)
+    if case.get('dflt'):
+        # LIBRARY DEFAULT SYSTEM: the case's system is installed with set_as_default() (after a decoy with very
+        # different limits and raster was the default for a moment) and the `system` argument is OMITTED; the
+        # result must be exactly what passing that system explicitly gives.  The previous default is restored.
+        old = pp.Opts.default
+        try:
+            pp.Opts(max_grad=1000.0, grad_unit='Hz/m', max_slew=1e6, slew_unit='Hz/m/s',
+                    grad_raster_time=50e-6).set_as_default()
+            system.set_as_default()
+            try:
+                res = pp.add_gradients(objs, **kw)
+            except ValueError as e:
+                err = str(e)
+        finally:
+            old.set_as_default()
+    else:
+        try:
+            res = pp.add_gradients(objs, system=system, **kw)
+        except ValueError as e:
+            err = str(e)
     after = snapshot(objs)
     return system, objs, res, err, before == after
 
@@ -717,7 +754,7 @@ def compare_model(ctx, items):
 
 
 def case_key(c):
-    return ('c16', repr(c['sys']), repr(c['ov']), repr(c['grads']))
+    return ('c16', repr(c['sys']), repr(c['ov']), repr(c['grads']), bool(c.get('dflt')))
 
 
 def run(ctx):
@@ -750,6 +787,9 @@ def run(ctx):
             ctx.count('junction.sign.' + ('neg' if any(g['k'] == 'ext' and g['delay'] > 0 and g['wf'][0] < 0 for g in c['grads']) else 'pos'))
         if c['ov']['mg'] or c['ov']['ms']:
             ctx.count('override.used')
+        ctx.count('system.' + ('library_default_omitted' if c.get('dflt') else 'explicit'))
+        if c.get('dflt'):
+            ctx.count('system.default.path.' + info['path'])
         if i % 300 == 9:
             ctx.sample({'stream': c['stream'], 'sys': c['sys'], 'ov': c['ov'], 'kinds': [g['k'] for g in c['grads']],
                         'path': info['path'], 'raised': err})
